@@ -45,6 +45,7 @@ def stmtErr : StmtErr → String
   | .store .intOutOfRange => "intOutOfRange" | .store .rowTooLarge => "rowTooLarge"
   | .store .keyExists => "keyExists" | .store .decode => "decode" | .store .cellNotFound => "cellNotFound"
   | .store .pageTableEntryMissing => "pageTableEntryMissing"
+  | .store .fieldNotFound => "fieldNotFound" | .store .fieldAmbiguous => "fieldAmbiguous"
   | .exec .tableNotExist => "tableNotExist" | .exec .fieldNotFound => "fieldNotFound" | .exec .fieldAmbiguous => "fieldAmbiguous"
   | .exec .incompat => "incompat" | .exec .nothingToCompare => "nothingToCompare" | .exec .nothingToEvaluate => "nothingToEvaluate"
   | .exec .nonBoolJoin => "nonBoolJoin" | .exec .sortFieldNotFound => "sortFieldNotFound" | .exec .avgNonInteger => "avgNonInteger"
